@@ -68,7 +68,7 @@ class TracedWriter(io.BufferedWriter):
         return super().close()
 
 
-def install(hook, wrap_files=False):
+def install(hook, wrap_files=False, plain_proxy=False):
     """returns undo(). hook(prim, path, *extra) is called before each primitive."""
     import jug.backends.file_store as fs
     saved = {k: fs.__dict__.get(k) for k in ('exists', 'os', 'path', 'open', 'tempfile', 'dirname')}
@@ -89,7 +89,7 @@ def install(hook, wrap_files=False):
             name = fdnames.get(fd, '<fd>')
             hook('fdopen', name)
             mode = a[0] if a else k.get('mode', 'r')
-            if wrap_files and mode == 'wb':
+            if wrap_files and mode == 'wb' and not plain_proxy:
                 return TracedWriter(io.FileIO(fd, 'wb'), hook, name)
             f = os.fdopen(fd, *a, **k)
             return FileProxy(f, hook, name) if wrap_files else f
